@@ -329,6 +329,7 @@ func Main(id, tier string) int {
 	}
 	c.deadline = c.start.Add(time.Duration(budget) * time.Second)
 	c.known = loadFindings(filepath.Join(verif, "KNOWN_FINDINGS.jsonl"))
+	os.RemoveAll(filepath.Join(verif, "replays", id)) // replay files of earlier runs are stale
 
 	func() {
 		defer func() {
